@@ -12,6 +12,7 @@ import (
 	"github.com/libsv/go-bt/v2"
 	"github.com/libsv/go-bt/v2/bscript"
 	"github.com/libsv/go-bt/v2/bscript/interpreter"
+	"github.com/libsv/go-bt/v2/bscript/interpreter/scriptflag"
 	"github.com/libsv/go-bt/v2/ord"
 	"github.com/libsv/go-bt/v2/unlocker"
 
@@ -224,8 +225,9 @@ func c20JudgeFlow(c *mon.Ctx, f *c20Flow) {
 		raw, _ := bt.NewTxFromBytes(final.Bytes())
 		var xerr error
 		if c.Try("interpreter.Engine.Execute", func() {
-			xerr = theEngine(c).Execute(interpreter.WithTx(raw, i, &bt.Output{Satoshis: cn.sats, LockingScript: bscript.NewFromBytes(append([]byte{}, cn.script...))}),
-				interpreter.WithForkID(), interpreter.WithAfterGenesis())
+			xopts := append([]interpreter.ExecutionOptionFunc{interpreter.WithTx(raw, i, &bt.Output{Satoshis: cn.sats, LockingScript: bscript.NewFromBytes(append([]byte{}, cn.script...))})},
+				flagOptions(uint32(scriptflag.EnableSighashForkID|scriptflag.UTXOAfterGenesis), i+len(final.Inputs))...)
+			xerr = theEngine(c).Execute(xopts...)
 		}) && xerr != nil {
 			good = false
 			who := "buyer"
